@@ -532,6 +532,23 @@ func (s *RegScenario) Check(k *sim.Kernel) []sim.Violation {
 			out = append(out, vio("linearizable", "history-not-linearizable "+s.firstOddity(hist), "the %d completed operations cannot be explained by any sequential order consistent with their invocation/return order against the model {identity, names in registration order, descriptions, serving}: %s", len(hist), describeHistory(hist)))
 		}
 	}
+	// ---- a helper call that reached the service is answered: the only transport
+	// trouble these histories contain is a connection that was dialled but not yet
+	// accepted when the listener was closed (reset)
+	for _, o := range obs {
+		if !o.Failed {
+			continue
+		}
+		if strings.Contains(o.Out, "reset") || strings.Contains(o.Out, "epipe") {
+			continue
+		}
+		detail := o.Out
+		if i := strings.Index(detail, "other: "); i >= 0 {
+			detail = detail[i:]
+		}
+		out = append(out, vio("helpers", "helper-call-failed "+o.Op, "%s(%s) on an accepted connection failed with %q: no connection is aborted in this history and the service never ends one by itself", o.Op, abbreviate(o.Name, 40), detail))
+		break
+	}
 	// ---- resolver helpers: field for field what the resolver interface answered
 	for _, o := range obs {
 		if o.Failed || s.Resolver == nil {
